@@ -1279,17 +1279,17 @@ def evalf(e, env=None, seed=0, strict=False):
             elif k in ("fn:max", "fn:min") and isinstance(a.args[0], tuple):
                 vs = [val(x) for x in a.args[0]]
                 v = (max if k == "fn:max" else min)(vs)
-            elif strict and k == "fn:arcsin":
+            elif k == "fn:arcsin":
                 x = val(a.args[0])
                 v = math.asin(x) if -1 <= x <= 1 else float("nan")
-            elif strict and k == "fn:arctan":
+            elif k == "fn:arctan":
                 v = math.atan(val(a.args[0]))
-            elif strict and k == "fn:log":
+            elif k == "fn:log":
                 x = val(a.args[0])
                 v = math.log(x) if x > 0 else float("nan")
             elif strict and k == "fn:select":
                 v = val(a.args[1]) if gval(a.args[0]) else val(a.args[2])
-            elif strict and k == "fn:clip":
+            elif k == "fn:clip" and len(a.args) == 3:
                 x = val(a.args[0])
                 lo = None if a.args[1] == "none" else val(a.args[1])
                 hi = None if a.args[2] == "none" else val(a.args[2])
